@@ -39,6 +39,7 @@ func init() {
 			{ID: "C11.16", Desc: "the hop-by-hop set used for one response is not the shared table (`Connection: Age` of one response does not take the Age out of later ones)", Run: func(c *Ctx) { ruleHopTablePerResponse(c, "C11.16") }, MinSites: 1},
 			{ID: "C11.17", Desc: "the cache's own Age and status fields are written after the origin-named fields were stripped", Run: func(c *Ctx) { ruleOwnFieldsSetLast(c, "C11.17") }, MinSites: 1},
 			{ID: "C11.18", Desc: "after a 304 the Age counts from the validation exchange (the write-back carries its times)", Run: func(c *Ctx) { ruleC08_2(c); renameRule(c, "C08.2", "C11.18") }, MinSites: 1},
+			{ID: "C11.19", Desc: "the entry's request time is read from the clock in front of the origin call and its response time behind it, on every path into the entry", Run: func(c *Ctx) { ruleTimeRoles(c, "C11.19") }, MinSites: 2},
 		},
 	})
 }
